@@ -139,5 +139,24 @@ PROPS = {
         "trusted_base": ["Model/NetConf.lean (hand-written)", "hooks pkg/eni, daemon zz_verif_export.go, plugin/terway/zz_verif_driver_test.go"],
         "design_ref": "DESIGN.md §4 C12",
     },
+    "C13": {
+        "lean": ["C13"],
+        "required": ["C13.c13_to_pod", "C13.c13_from_pod", "C13.c13_teardown_exact", "C13.c13_teardown_keeps_others_reachable",
+                     "C13.c13_one_default_contPolicy", "C13.c13_one_default_contIPVlan", "C13.c13_one_default_contExclusive", "C13.c13_one_default_contVlan",
+                     "C13.c13_disabled_family_contPolicy", "C13.c13_disabled_family_contIPVlan", "C13.c13_disabled_family_contExclusive", "C13.c13_disabled_family_contVlan",
+                     "C13.c13_disabled_family_hostPeer", "C13.c13_disabled_family_eniPolicy", "C13.c13_disabled_family_slaveIPVlan", "C13.c13_disabled_family_eniIPVlan"],
+        "rule": "random setup configurations (IPv4 / IPv6 / dual, trunk on/off, default-route on/off, multi-network on/off, 0-2 extra routes of both families with/without gateway, three interface names, link indices 2-31) "
+                "through the eight real configuration generators (policy-route container / host veth / ENI, ipvlan container / slave / ENI, exclusive-ENI container, vlan container) with stub links; the canonicalised nic.Conf "
+                "(addresses, routes with table/gateway/scope/onlink, rules, neighbours, sysctls, strip flag) is compared with the Lean generators. non-trivial = configuration with at least one enabled family field set beyond the address; distinct = distinct op line.",
+        "technique": "Lean 4 theorems over generator models and a small policy-routing (FIB) semantics: lookup characterised by minimal-priority yielding rule + longest prefix; differential correspondence of the generators",
+        "level_text": "Theorems, for any number of pods sharing ENIs and all addresses: traffic to a pod address is delivered to that pod's host veth; traffic sourced from a pod leaves through the owning ENI via its gateway (table 1000+ifindex); "
+                      "teardown removes exactly the pod's rules and veth routes and nothing of another pod; exactly one main-table default route per enabled family inside the pod (all four container generators); nothing is generated for a disabled family (all eight generators). "
+                      "The FIB semantics itself is a model of the kernel (validated, not verified); ipvlan/vlan/exclusive-ENI host-side forwarding (tc filters, device creation) is outside the model: partial.",
+        "level_note": "Trusted: Lean kernel; Model/Datapath.lean, Model/Fib.lean hand-written; Linux policy routing behaves as Model/Fib.lean (rules by ascending priority, first table with a longest-prefix match); nic.Setup applies what the generators emit (ensure-style); "
+                      "qdisc/tc/eBPF, sysctl effects and link creation for ipvlan/vlan are not modelled.",
+        "assumptions": ["pod addresses on a node are pairwise distinct (C01/C02)", "the node's own main-table routes are not host routes", "an ENI gateway address is not a pod address", "pods on one ENI share that ENI's gateway"],
+        "trusted_base": ["Model/Datapath.lean, Model/Fib.lean (hand-written)", "hook plugin/datapath/zz_verif_export_linux.go"],
+        "design_ref": "DESIGN.md §4 C13",
+    },
 }
 NOT_APPLICABLE = {}
